@@ -442,3 +442,35 @@ func verifC05(n Name) (base []byte, parts [][]byte, b2 []byte) {
 //@   ensures unitMeta(m, unit, "better") != nil && unitMeta(m, unit, "better").Value == "lower" ==> b == -1
 //@   ensures unitMeta(m, unit, "better") != nil && unitMeta(m, unit, "better").Value != "higher" && unitMeta(m, unit, "better").Value != "lower" ==> b == 0
 //@   ensures unitMeta(m, unit, "better") == nil ==> b == ((unit == "ns/op" || unit == "sec/op" || unit == "B/op" || unit == "allocs/op") ? -1 : ((unit == "MB/s" || unit == "B/s") ? 1 : 0))
+
+// ---------------------------------------------------------------------------
+// Accessors (C02)
+
+// Result hands out the queued record Scan just announced, or the "no result"
+// marker when there is none; it never indexes outside the queue.
+//@ func (r *Reader) Result() (rec Record)
+//@   props C02
+//@   requires r != nil && 0 <= r.qPos
+//@   ensures r.qPos < len(r.q) ==> rec == r.q[r.qPos]
+//@   ensures r.qPos >= len(r.q) ==> rec == iface(noResult)
+
+//@ func (r *Reader) Err() (err error)
+//@   props C02
+//@   requires r != nil
+//@   ensures err == r.err
+
+//@ func (r *Reader) Units() (m UnitMetadataMap)
+//@   props C02
+//@   requires r != nil
+//@   ensures m == r.units
+
+// Value returns the first measurement in the given unit.
+//@ func (r *Result) Value(unit string) (v float64, ok bool)
+//@   props C02
+//@   requires r != nil
+//@   ensures ok <==> (exists i int :: 0 <= i < len(r.Values) && r.Values[i].Unit == unit)
+//@   ensures ok ==> exists i int :: 0 <= i < len(r.Values) && r.Values[i].Unit == unit && bits(v, r.Values[i].Value) && (forall j int :: 0 <= j < i ==> r.Values[j].Unit != unit)
+//@   loop 1:
+//@     invariant 0 <= idx() <= len(r.Values)
+//@     invariant forall j int :: 0 <= j < idx() ==> r.Values[j].Unit != unit
+//@     decreases len(r.Values) - idx()
